@@ -4,8 +4,10 @@ import (
 	"bytes"
 	"math/big"
 
+	errorsmod "cosmossdk.io/errors"
 	"cosmossdk.io/math"
 	sdk "github.com/cosmos/cosmos-sdk/types"
+	"github.com/ethereum/go-ethereum/accounts/abi"
 	"github.com/ethereum/go-ethereum/common"
 	"github.com/ethereum/go-ethereum/core"
 	ethtypes "github.com/ethereum/go-ethereum/core/types"
@@ -57,6 +59,14 @@ func (k Keeper) PostTxProcessing(
 	}
 
 	erc20 := contracts.ERC20MinterBurnerDecimalsContract.ABI
+
+	// A registered token that hands out an allowance over the tokens held by the
+	// module account can have its escrow drained afterwards. The module never
+	// approves anyone, so such an event is unexpected: fail (and thereby revert)
+	// the transaction, as the ConvertCoin/ConvertERC20 messages do.
+	if err := k.monitorModuleApprovalEvent(ctx, erc20, receipt); err != nil {
+		return err
+	}
 
 	for i, log := range receipt.Logs {
 		// Note: the `Transfer` event contains 3 topics (id, from, to)
@@ -157,6 +167,37 @@ func (k Keeper) PostTxProcessing(
 			)
 			continue
 		}
+	}
+
+	return nil
+}
+
+// monitorModuleApprovalEvent returns an error if a registered token contract
+// emitted an `Approval` event whose owner is the module address.
+func (k Keeper) monitorModuleApprovalEvent(ctx sdk.Context, erc20 abi.ABI, receipt *ethtypes.Receipt) error {
+	for _, log := range receipt.Logs {
+		// Note: the `Approval` event contains 3 topics (id, owner, spender)
+		if len(log.Topics) != 3 {
+			continue
+		}
+
+		event, err := erc20.EventByID(log.Topics[0])
+		if err != nil || event.Name != types.ERC20EventApproval {
+			continue
+		}
+
+		owner := common.BytesToAddress(log.Topics[1].Bytes())
+		if !bytes.Equal(owner.Bytes(), types.ModuleAddress.Bytes()) {
+			continue
+		}
+
+		if len(k.GetERC20Map(ctx, log.Address)) == 0 {
+			continue
+		}
+
+		return errorsmod.Wrapf(
+			types.ErrUnexpectedEvent, "unexpected Approval event over the module's tokens by %s", log.Address,
+		)
 	}
 
 	return nil
